@@ -179,51 +179,35 @@ def _short(t):
 
 
 def _diff_sig(want, got):
+    """Coarse kind of the first structural difference (for bucketing)."""
     d = E.first_diff(want, got) or "?"
-    # keep the kind of difference, drop operand names / values
-    d = re.sub(r"^[^:]*: ", "", d)
-    d = re.sub(r"'[^']*'|\d+(\.\d+)?", "_", d)
-    return d[:60]
+    path, _, what = d.partition(": ")
+    m = re.match(r"^(\w+) != (\w+)$", what)
+    if m and m.group(1)[:1].isupper() and m.group(1) not in ("True", "False", "None"):
+        return what  # node types
+    if what.startswith("length"):
+        return "number of children"
+    key = re.sub(r"\[\d+\]", "", path).rsplit(".", 1)[-1]
+    return "field " + (key or "?")
 
 
 def check_tree(acc, t, ctx, origin, do_eval=True):
     """The oracle of sub-campaign 1 for one tree in one context."""
-    want = E.strip(t)
     srcs = {}
     ok = True
     for mode in ("min", "full"):
         toks, path = E.print_expr(t, mode, ctx)
         src = E.join_min(toks)
         srcs[mode] = src
-        r = parse(src)
-        if r[0] == "ok":
-            try:
-                got = E.get_path(r[1], path)
-            except (KeyError, IndexError, TypeError):
-                got = {"type": "?"}
-            if E.tree_eq(got, want):
-                continue
-            sub_t, sub_ctx = shrink_tree(t, ctx, mode)
-            toks2, path2 = E.print_expr(sub_t, mode, sub_ctx)
-            src2 = E.join_min(toks2)
-            r2 = parse(src2)
-            got2 = E.get_path(r2[1], path2) if r2[0] == "ok" else None
-            if got2 is None:
-                sig = "prec|%s|rejected|%s" % (mode, r2[1] if r2[0] == "syntax" else r2[0])
-            else:
-                sig = "prec|%s|shape|%s" % (mode, _diff_sig(E.strip(sub_t), got2))
-            acc.viol(sig, {"sub": "prec", "tree": sub_t, "ctx": sub_ctx, "mode": mode, "src": src2, "from": src[:300], "origin": origin},
-                     {"parses_to": "the printed tree"}, {"parses_to": got2 if got2 is not None else list(r2)}, "prec")
-        else:
-            sub_t, sub_ctx = shrink_tree(t, ctx, mode)
-            toks2, _ = E.print_expr(sub_t, mode, sub_ctx)
-            src2 = E.join_min(toks2)
-            r2 = parse(src2)
-            what = r2[1] if r2[0] in ("syntax", "exc") else r2[0]
-            acc.viol("prec|%s|rejected|%s|%s" % (mode, r2[0], what), {"sub": "prec", "tree": sub_t, "ctx": sub_ctx, "mode": mode, "src": src2,
-                                                                       "from": src[:300], "origin": origin},
-                     {"parses_to": "the printed tree"}, list(r2)[:4], "prec")
+        if _tree_failure(t, ctx, mode, src) is None:
+            continue
         ok = False
+        sub_t, sub_ctx = shrink_tree(t, ctx, mode)
+        kind, what, actual = _tree_failure(sub_t, sub_ctx, mode)
+        toks2, _ = E.print_expr(sub_t, mode, sub_ctx)
+        acc.viol("prec|%s|%s|%s" % (mode, kind, what),
+                 {"sub": "prec", "tree": sub_t, "ctx": sub_ctx, "mode": mode, "src": E.join_min(toks2), "from": src[:300], "origin": origin},
+                 {"parses_to": "the printed tree"}, actual, "prec")
     if ok and do_eval and ctx not in ("ret", "arrowbody"):
         o1 = evaluate([PRELUDE, srcs["min"], STATE])
         o2 = evaluate([PRELUDE, srcs["full"], STATE])
@@ -238,15 +222,24 @@ def check_tree(acc, t, ctx, origin, do_eval=True):
     return ok, srcs
 
 
-def _tree_fails(t, ctx, mode):
+def _tree_failure(t, ctx, mode, src=None):
+    """None when the rendering of t parses to t; else (kind, bucket, actual)."""
     toks, path = E.print_expr(t, mode, ctx)
-    r = parse(E.join_min(toks))
+    r = parse(src if src is not None else E.join_min(toks))
     if r[0] != "ok":
-        return True
+        return ("rejected", r[1] if r[0] in ("syntax", "exc") else r[0], list(r)[:4])
+    want = E.strip(t)
     try:
-        return not E.tree_eq(E.get_path(r[1], path), E.strip(t))
+        got = E.get_path(r[1], path)
     except (KeyError, IndexError, TypeError):
-        return True
+        got = {"type": "?"}
+    if E.tree_eq(got, want):
+        return None
+    return ("shape", _diff_sig(want, got), {"parses_to": got, "difference": E.first_diff(want, got)})
+
+
+def _tree_fails(t, ctx, mode):
+    return _tree_failure(t, ctx, mode) is not None
 
 
 def shrink_tree(t, ctx, mode):
@@ -295,6 +288,8 @@ def task_prec_random(task):
     for k in range(n):
         d = rnd.choice((2, 3, 3, 4, 4, 5, 6))
         t = g.expr(d)
+        while t["type"] in E.LEAF_TYPES:
+            t = g.expr(d)
         ctx = rnd.choice(E.CONTEXTS)
         ok, srcs = check_tree(acc, t, ctx, "random", do_eval=(k % 2 == 0))
         acc.count += 1
@@ -516,7 +511,8 @@ def task_layout_corpus(task):
             continue
         texts = [t.text for t in toks]
         nonl, must = E.corpus_layout_constraints(toks)
-        do_eval = len(src) < 3000
+        # programs that look at their own source positions legitimately depend on the layout
+        do_eval = len(src) < 3000 and not re.search(r"lineNumber|columnNumber|\.stack\b", src)
         ob = evaluate([src]) if do_eval else None
         for j in range(2):
             stats = {}
@@ -729,6 +725,8 @@ def run_literals(chk, sw):
 #            call / new / conditional / sequence expression; never an array or object literal, which are patterns,
 #            never an arrow function).  Printed parenthesised `(a + b) = 1` the early error applies; printed bare
 #            (`a + b = 1`, only for targets where no other derivation exists) the grammar has no production.
+#  unary-base-of-**  `-a ** b` (any unary operator): the base of ** must be an UpdateExpression, and `a ** b` is not
+#            a UnaryExpression, so neither (-a) ** b nor -(a ** b) is a derivation of the unparenthesised text.
 #  ternary   the `:` of a conditional expression is replaced by `;` (a `?` then has no `:` before the expression
 #            ends: `;` cannot occur inside an expression outside brackets), or removed where both neighbours are
 #            identifiers / numbers of my own pool (two operands in a row on one line).
@@ -914,6 +912,16 @@ def task_reject(task):
             ok = judge_reject(acc, kind, src, "generated")
             if ok and k % 60 == 0 and len(acc.samples) < 4:
                 acc.samples.append({"sub": "reject", "kind": kind, "src": src[-160:], "result": "JSSyntaxError"})
+        # tree-level: a unary expression as the base of ** (ExponentiationExpression : UpdateExpression ** ...;
+        # `-a ** b` has no derivation: the operand of a unary operator is a UnaryExpression, which `a ** b` is not)
+        if k % 5 == 0:
+            op = rnd.choice(E.UNOPS)
+            base = E.Un(op, E.Mem(E.Id("o"), "p") if op == "delete" else rnd.choice((E.Id("a"), E.Num(2), E.Mem(E.Id("o"), "p"))))
+            ex = E.Bin("**", base, rnd.choice((E.Id("b"), E.Num(2), E.Un("-", E.Num(1)))))
+            ex = rnd.choice((ex, E.Bin("+", E.Num(1), ex), E.Bin("*", ex, E.Id("b")), E.Asg("=", E.Id("a"), ex), E.Bin("**", E.Num(2), ex)))
+            pp = E.Printer(mode="min", raw_exp_base=True)
+            pp.program(E.Prog(pr["body"][:1] + [E.ExprStmt(ex)]))
+            judge_reject(acc, "unary-base-of-** " + op, join_lines(pp.o), "generated")
         # tree-level: non-reference targets
         sites = []
         _target_sites(pr, sites)
